@@ -134,17 +134,25 @@ static Reg r_xzi("tmxzi", [](const Args& A) {
   // (near the branch point dw/dzeta is unbounded: there a residual of zeta itself at rounding level is what a root means)
   if (std::isfinite(u) && std::isfinite(v) && !(st <= 1e-9 * (1 + std::fabs(u) + std::fabs(v)) || std::hypot(r1, r2) <= 64 * 2.220446049250313e-16 * (1 + std::fabs(lam))) ) bad("zetainv-residual", "zetainv returns a point whose Newton correction is still " + std::to_string(st * 1e9) + "e-9");
 });
-// tmxsi f xi eta
+// tmxsi f xi eta img     (img = 1: (xi, eta) is the image of a point of the documented domain, so sigmainv must return a root)
 static Reg r_xsi("tmxsi", [](const Args& A) {
-  double f = unhx(A[0]), xi = unhx(A[1]), eta = unhx(A[2]); TX t(1.0, f, 1.0); double u, v;
+  double f = unhx(A[0]), xi = unhx(A[1]), eta = unhx(A[2]); bool img = A.size() > 3 && A[3] == "1"; TX t(1.0, f, 1.0); double u, v;
   t.sigmainv(xi, eta, u, v);
   std::vector<Entry> tr = trace_sigmainv(t, xi, eta);
-  current_op() = "tmxsi " + A[0] + " " + A[1] + " " + A[2] + " " + hK(t) + " " + htrace(tr);
+  current_op() = "tmxsi " + A[0] + " " + A[1] + " " + A[2] + " " + (img ? "1" : "0") + " " + hK(t) + " " + htrace(tr);
   emit(hx(u) + " " + hx(v));
-  Entry e = final_entry(t, u, v); double x1, e1, du, dv;
+  if (!img) return;
+  // the point returned is a root: the Newton correction there is at rounding level, or (next to the branch point, where dw/dsigma is unbounded and the
+  // correction is dominated by the rounding of sigma itself) it corresponds to a displacement of at most 32 eps radians on the ellipsoid, |dw| / |dw/dzeta|
+  Entry e = final_entry(t, u, v); double x1, e1, du, dv, duz, dvz;
   t.sigma(u, e.j.snu, e.j.cnu, e.j.dnu, v, e.j.snv, e.j.cnv, e.j.dnv, x1, e1); t.dwdsigma(u, e.j.snu, e.j.cnu, e.j.dnu, v, e.j.snv, e.j.cnv, e.j.dnv, du, dv);
-  double r1 = x1 - xi, r2 = e1 - eta, st = std::hypot(r1 * du - r2 * dv, r1 * dv + r2 * du);
-  if (std::isfinite(u) && std::isfinite(v) && !(st <= 1e-9 * (1 + std::fabs(u) + std::fabs(v)) || std::hypot(r1, r2) <= 64 * 2.220446049250313e-16 * (1 + std::fabs(xi) + std::fabs(eta)))) bad("sigmainv-residual", "sigmainv returns a point whose Newton correction is still " + std::to_string(st * 1e9) + "e-9");
+  t.dwdzeta(u, e.j.snu, e.j.cnu, e.j.dnu, v, e.j.snv, e.j.cnv, e.j.dnv, duz, dvz);
+  double r1 = x1 - xi, r2 = e1 - eta, st = std::hypot(r1 * du - r2 * dv, r1 * dv + r2 * du), ground = st / std::hypot(duz, dvz);
+  if (std::isfinite(u) && std::isfinite(v) && !(st <= 1e-9 * (1 + std::fabs(u) + std::fabs(v)) || ground <= 32 * 2.220446049250313e-16))
+  { // finding F91 (see C06.cpp): eccentric ellipsoid and the iteration took all numit_ steps or left the period rectangle
+    bool wander = false; for (auto& en : tr) if (!(std::fabs(en.u) <= 2 * t._eEu.K() && en.v >= -t._eEv.K() && en.v <= 2 * t._eEv.K())) wander = true;
+    std::string cls = (f * (2 - f) >= 0.15 && (wander || int(tr.size()) >= TX::numit_)) ? " [class:sigmainv-not-settled e^2 = " + std::to_string(f * (2 - f)) + " steps = " + std::to_string(tr.size()) + "]" : "";
+    bad("sigmainv-residual", "sigmainv returns a point whose Newton correction is still " + std::to_string(st * 1e9) + "e-9 (" + std::to_string(ground * 1e9) + "e-9 rad on the ellipsoid)" + cls); }
 });
 
 // tmxkf f ext lat lon      (lat, lon: already folded when ext = 0; any point of the documented extended domain when ext = 1)
@@ -219,10 +227,17 @@ inline void generate(Rng& r, long i, double f) {
     bool south = r.irange(0, 3) == 0 && lon >= bp; double la = south ? -std::fmin(lat, 85.0) : lat;
     double taup = Math::taupf(Math::tand(la), e), lam = lon * Math::degree();
     run("tmxzi", {hx(f), hx(taup), hx(lam)}); stratum(south ? "exact-zetainv-extended" : "exact-zetainv"); }
-  { double xi = r.pick(std::vector<double>{r.range(0, Eu), r.range(0, Eu), 0.0, Eu, r.range(0, 1) * std::pow(10.0, -r.irange(0, 10))});
+  { // images of points of the documented domain (the inversion must succeed there) ...
+    double lat = r.pick(std::vector<double>{r.range(0, 90), r.range(0, 90), r.range(0, 1) * std::pow(10.0, -r.irange(0, 10)), 89.9999, 0.0});
+    double lon = r.pick(std::vector<double>{r.range(0, 90), r.range(0, 90), bp + r.range(-1, 1) * std::pow(10.0, -r.irange(0, 10)), 0.0, r.range(bp, 90)});
+    if (lon > 90) lon = 90; if (lon < 0) lon = 0;
+    bool south = r.irange(0, 3) == 0 && lon >= bp; TX tx(1.0, f, 1.0, south); double x, y, g, k;
+    tx.Forward(0.0, south ? -std::fmin(lat, 85.0) : lat, lon, x, y, g, k);
+    if (std::isfinite(x) && std::isfinite(y) && std::hypot(x, y) < 1e3) { run("tmxsi", {hx(f), hx(y), hx(x), "1"}); stratum(south ? "exact-sigmainv-extended" : "exact-sigmainv"); }
+    // ... and arbitrary points of the plane (correspondence with the model only)
+    double xi = r.pick(std::vector<double>{r.range(0, Eu), r.range(-Eu, Eu), 0.0, Eu, r.range(0, 1) * std::pow(10.0, -r.irange(0, 10))});
     double eta = r.pick(std::vector<double>{r.range(0, 1.2 * KEv), r.range(0, KEv), r.range(0, 4 * KEv), 0.0, KEv + r.range(-1, 1) * std::pow(10.0, -r.irange(0, 10)), r.range(0, 1) * std::pow(10.0, -r.irange(0, 10))});
-    bool south = r.irange(0, 3) == 0 && eta >= KEv; double x = south ? -xi : xi;
-    run("tmxsi", {hx(f), hx(x), hx(eta)}); stratum(south ? "exact-sigmainv-extended" : "exact-sigmainv"); }
+    run("tmxsi", {hx(f), hx(xi), hx(eta), "0"}); stratum("exact-sigmainv-plane"); }
   // Forward / Reverse between fold and unfold
   { bool ext = r.irange(0, 2) == 0;
     double lat = r.pick(std::vector<double>{r.range(0, 90), r.range(0, 90), 0.0, 90.0, 1e-10, 89.999999, r.range(0, 1) * std::pow(10.0, -r.irange(0, 10))});
